@@ -185,6 +185,8 @@ impl SampleStreamSource {
             return Err(MediaError::Closed);
         }
 
+        #[cfg(rustrtc_verif)]
+        crate::verif_sched::yield_point(crate::verif_sched::SRC_PUSH_LOCK);
         let _push_guard = self.push_lock.lock();
         let sample = match self.queue.push(sample) {
             Ok(()) => {
@@ -281,6 +283,8 @@ impl SampleStreamSource {
             return Err(MediaError::Closed);
         }
 
+        #[cfg(rustrtc_verif)]
+        crate::verif_sched::yield_point(crate::verif_sched::SRC_PUSH_LOCK);
         let _push_guard = self.push_lock.lock();
         self.queue
             .push(sample)
